@@ -257,6 +257,10 @@ class BodyMixin:
 
     @cache_in('environ[ ombott.request.body ]', read_only=True)
     def _body(self):
+        failed = self.environ.get('ombott.request.body_error')
+        if failed is not None:
+            # the stream was given up in the middle of a refused body: what is left in it is not a body
+            self._raise(failed, RequestError)
         markup = None
         mp = MULTIPART_BOUNDARY_PATT.match(self.environ.get('CONTENT_TYPE', ''))
         try:
@@ -273,6 +277,7 @@ class BodyMixin:
             )
             body.ombott_markup = markup
         except RequestError as err:
+            self.environ['ombott.request.body_error'] = err
             self._raise(err, RequestError)
         self.environ['wsgi.input'] = body
         body.seek(0)
